@@ -86,12 +86,12 @@ Proof. intros A B C. unfold dispatch. rewrite A, B, C. reflexivity. Qed.
 Lemma wshape_hdr e : wshape e -> ehdr e = Some (MdOk 0).
 Proof. intros [(b & ->) | [-> | [-> | ->]]]; reflexivity. Qed.
 
-Theorem sys_good pol ls s :
+Theorem sys_good_id pol ls s i :
   Sys.lrun pol Sys.init ls = Some s ->
-  (forall e, In (EvWrite e) (Client.log (cl s)) -> erst e = false) ->
-  Good (Server.log (sv s)).
+  (forall e, In (EvWrite e) (Client.log (cl s)) -> eid e = i -> erst e = false) ->
+  good i (Server.log (sv s)).
 Proof.
-  intros H Hnr i.
+  intros H Hnr.
   pose proof (proj_c_run _ _ _ _ H) as Hc.
   pose proof (sys_reads_prefix _ _ _ H) as Hp.
   destruct (winv_reach _ _ _ H) as [W1 _ _].
@@ -101,7 +101,7 @@ Proof.
   assert (Hw : forall f, In f (sent_c2s s) -> In (EvWrite (f_env f)) (Client.log (cl s))).
   { intros f Hin. apply in_cwrites. rewrite <- W1. apply in_map. exact Hin. }
   repeat split.
-  - intros f Hin. destruct (Hsent _ Hin) as (Hs & _). unfold is_rst. apply Hnr. apply Hw. exact Hs.
+  - intros f Hin. destruct (Hsent _ Hin) as (Hs & Hi). unfold is_rst. apply Hnr; [apply Hw; exact Hs | exact Hi].
   - intros f g Hf Hg. destruct (Hsent _ Hf) as (Hsf & Hif). destruct (Hsent _ Hg) as (Hsg & Hig).
     destruct (sent_ok_init _ _ _ H _ Hsf) as (c1 & k1 & Hk1 & Hid1 & Hpos1 & Hm1 & Hd1).
     destruct (sent_ok_init _ _ _ H _ Hsg) as (c2 & k2 & Hk2 & Hid2 & Hpos2 & Hm2 & Hd2).
@@ -117,24 +117,41 @@ Proof.
       eapply in_tl_prefix; [exact Hin|]. eapply wire_c2s_prefix_id; eauto. }
     pose proof (OPN_reach _ _ Hc i _ X) as Ho.
     assert (Hr : erst (f_env f) = false).
-    { apply Hnr. apply Hw. assert (Y : In f (idreads i (Server.log (sv s)))) by (destruct (idreads i (Server.log (sv s))); [destruct Hin | right; exact Hin]).
-      apply (Hsent _ Y). }
+    { assert (Y : In f (idreads i (Server.log (sv s)))) by (destruct (idreads i (Server.log (sv s))); [destruct Hin | right; exact Hin]).
+      apply Hnr; [apply Hw; apply (Hsent _ Y) | apply (Hsent _ Y)]. }
     unfold eopener in Ho. unfold opener, has_body, has_trl. rewrite Hr in Ho.
     destruct (ebody (f_env f)); [reflexivity|]. destruct (etrl (f_env f)); [reflexivity | discriminate Ho].
+Qed.
+
+Theorem sys_good pol ls s :
+  Sys.lrun pol Sys.init ls = Some s ->
+  (forall e, In (EvWrite e) (Client.log (cl s)) -> erst e = false) ->
+  Good (Server.log (sv s)).
+Proof. intros H Hnr i. apply (sys_good_id _ _ _ _ H). intros e He _. auto. Qed.
+
+(* the pipeline invariant of ONE stream: only resets written under ITS id matter *)
+Lemma stream_PIh pol ls s h k :
+  Sys.lrun pol Sys.init ls = Some s -> fault_free ls = true ->
+  (forall e, In (EvWrite e) (Client.log (cl s)) -> eid e = fid (h_req k) -> erst e = false) ->
+  nth_error (hs (sv s)) h = Some k -> h_unary k = false -> PIh (sv s) h k.
+Proof.
+  intros H Hff Hnr Hn Hu.
+  pose proof (proj_s_run _ _ _ _ H) as Hs.
+  apply (PIs_reach (fun j => j =? fid (h_req k)) _ _ _ Hs (proj_s_lbl_ok _ _ _ Hff)); auto; [|apply Z.eqb_refl].
+  intros i Si. apply Z.eqb_eq in Si. subst i. eapply sys_good_id; eauto.
 Qed.
 
 (* ---------- C02_prefix, caller -> handler ---------- *)
 Theorem C02_prefix_c2h pol ls s h k :
   Sys.lrun pol Sys.init ls = Some s -> fault_free ls = true ->
-  (forall e, In (EvWrite e) (Client.log (cl s)) -> erst e = false) ->
+  (forall e, In (EvWrite e) (Client.log (cl s)) -> eid e = fid (h_req k) -> erst e = false) ->
   nth_error (hs (sv s)) h = Some k -> h_unary k = false ->
   exists fs, recv_results h (Server.log (sv s)) = map recv_res fs /\
              is_prefix (map f_env fs) (tl (by_id (fid (h_req k)) (cwrites (Client.log (cl s))))).
 Proof.
   intros H Hff Hnr Hn Hu.
   pose proof (proj_s_run _ _ _ _ H) as Hs.
-  pose proof (sys_good _ _ _ H Hnr) as G.
-  pose proof (PI_reach _ _ _ Hs (proj_s_lbl_ok _ _ _ Hff) G h k Hn Hu) as (Hce & Hd & T & HT0 & Hb & Hcc).
+  pose proof (stream_PIh _ _ _ _ _ H Hff Hnr Hn Hu) as (Hce & Hd & T & HT0 & Hb & Hcc).
   exists (takes h (Server.log (sv s))). split; [apply (RR_reach _ _ _ Hs)|].
   assert (P : is_prefix (takes h (Server.log (sv s))) T).
   { destruct (h_cancel k) eqn:C; [apply Hcc; reflexivity|]. rewrite (Hb eq_refl). eexists. reflexivity. }
